@@ -37,6 +37,10 @@ class EFloatFormat_representable_in(Contract):
     returns = 'bool'
     properties = ['C16']
     note = 'special values and zeros only (finite non-zero members need the MPBFloatFormat contracts: not covered)'
+    # written before MPBFloatFormat had contracts: the bounded format underneath is inlined (its contract assumes
+    # `mpbfl_bounds`, which nothing establishes for EFloatFormat._mpb_fmt yet)
+    no_use = ['MPBFloatFormat_representable_in', 'MPBFloatFormat_normalize', 'MPBFloatFormat_to_ordinal', 'MPBFloatFormat_from_ordinal',
+              'MPBFloatFormat_minval', 'MPBFloatFormat_maxval', 'MPBFloatFormat_infval']
 
     def pre(self, x):
         return {'special_or_zero': x._isnan or x._isinf or x._real._c == 0}
@@ -65,6 +69,10 @@ class EFloatFormat_encode(Contract):
     # solver (DESIGN A7): bounded fall-back for the path-queries that neither prove nor refute, every width / exponent <= 12, eoffset symbolic
     options = {'split_heavy': True, 'bounded_fallback': 12, 'bounded_ms': 60000}
     note = 'special values and zeros only (finite non-zero members need the MPBFloatFormat contracts: not covered)'
+    # written before MPBFloatFormat had contracts: the bounded format underneath is inlined (its contract assumes
+    # `mpbfl_bounds`, which nothing establishes for EFloatFormat._mpb_fmt yet)
+    no_use = ['MPBFloatFormat_representable_in', 'MPBFloatFormat_normalize', 'MPBFloatFormat_to_ordinal', 'MPBFloatFormat_from_ordinal',
+              'MPBFloatFormat_minval', 'MPBFloatFormat_maxval', 'MPBFloatFormat_infval']
 
     def pre(self, x):
         return {'special_or_zero': x._isnan or x._isinf or x._real._c == 0}
